@@ -6,6 +6,7 @@ import (
 	"os"
 	"path/filepath"
 	"strconv"
+	"strings"
 	"sync"
 	"sync/atomic"
 	"time"
@@ -232,6 +233,30 @@ func (p *pRunner) exec(op pOp) (string, error) {
 			}
 		}
 		if len(op.Argv) == 0 {
+			return "ok", nil
+		}
+		switch op.Argv[0] {
+		case "@SNAP": // synchronous snapshot; a returned error is a result, not a failure of the run
+			var res string
+			func() {
+				defer func() {
+					if r := recover(); r != nil {
+						res = fmt.Sprintf("panic: %v", r)
+					}
+				}()
+				if err := p.in.S.VerifSnapshotSync(); err != nil {
+					res = "err: " + err.Error()
+				} else {
+					res = "ok"
+				}
+			}()
+			if strings.HasPrefix(res, "panic") {
+				return "", fmt.Errorf("crash: %s", res)
+			}
+			return res, nil
+		case "@ADV":
+			ms, _ := strconv.ParseInt(op.Argv[1], 10, 64)
+			p.in.Clk.Advance(ms * 1e6)
 			return "ok", nil
 		}
 		v, _, crash := p.in.Do(op.Argv...)
